@@ -28,7 +28,8 @@ def gates(tier):
     return {'full_grader_calls': 8000, 'orders_checked': 6000, 'multi_match_inputs': 600, 'zero_credit_message_cases': 100,
             'wrong_msg_applicable': 300, 'wrong_msg_not_applicable': 600, 'list_entry_checks': 300,
             'class:StringGrader': 200, 'class:NumericalGrader': 150, 'class:FormulaGrader': 150,
-            'class:MatrixGrader': 100, 'class:SingleListGrader': 100, 'author_comparer_calls': 1500}
+            'class:MatrixGrader': 100, 'class:SingleListGrader': 100, 'author_comparer_calls': 1500,
+            'credit_scaling_checks': 1500, 'message_origin_checks': 3000}
 
 
 def specs(rng):
@@ -36,8 +37,14 @@ def specs(rng):
     kind = rng.choice(['String', 'String', 'Numerical', 'Formula', 'Matrix', 'SingleList'])
     if kind == 'String':
         cs = rng.random() < 0.5
-        return ('StringGrader', {'case_sensitive': cs}, ['cat', 'dog', 'Cat', ' cat ', 'fish', 'c a t', 'DOG', 'cat  '],
-                ['cat', 'CAT', 'dog', ' cat', 'bird', 'Dog', 'c a t', ''])
+        base = {'case_sensitive': cs}
+        extra = []
+        if rng.random() < 0.3:
+            # ill-formed submissions are silently graded wrong (no explanation): wrong_msg applies to them as to any wrong answer
+            base.update(validation_pattern='[a-zA-Z ]*', explain_validation=None)
+            extra = ['c4t', 'dog!', '42']
+        return ('StringGrader', base, ['cat', 'dog', 'Cat', ' cat ', 'fish', 'c a t', 'DOG', 'cat  '],
+                ['cat', 'CAT', 'dog', ' cat', 'bird', 'Dog', 'c a t', ''] + extra)
     if kind == 'Numerical':
         return ('NumericalGrader', {'tolerance': rng.choice(['5%', '1%', 0.2])}, ['5', '5.1', '10/2', '4.9', '6', '2+3', '5.3', '0'],
                 ['5', '5.05', '4.95', '5.2', '6', '7', '0', '2*2.5'])
@@ -118,6 +125,32 @@ def run_item(ctx):
             if any(not o.returned for o in souts):
                 ctx.count('inputs_with_raising_alternative')
                 continue
+            # credit-scaling law (absolute, so that a fault shared by the single-alternative graders is still seen):
+            # against ONE alternative the input earns credit x (what it earns when that alternative is worth 1), and the
+            # message does not depend on the credit -- in particular a zero-credit alternative speaks only when matched
+            for a, o in zip(split_singles(alts), souts):
+                if a['grade_decimal'] == 1:
+                    continue
+                try:
+                    o1 = lib.call(ctx, build(cls_name, base, [dict(a, grade_decimal=1)]), None, inp)
+                except Exception:  # noqa
+                    continue
+                ctx.ev()
+                ctx.count('credit_scaling_checks')
+                if not o1.returned:
+                    continue
+                if abs(o.value['grade_decimal'] - a['grade_decimal'] * o1.value['grade_decimal']) > 1e-12 or o.value['msg'] != o1.value['msg']:
+                    ctx.violation('C08:%s:single_alternative_depends_on_credit%s' % (cls_name, ':zero_credit' if a['grade_decimal'] == 0 else ''),
+                                  'worth %r: %r; worth 1: %r' % (a['grade_decimal'], o.value, o1.value),
+                                  {'grader': cls_name, 'config': base, 'alternative': a, 'input': inp})
+            if cls_name in ('StringGrader', 'NumericalGrader', 'FormulaGrader'):
+                # absolute: a message is one the author wrote for one of these alternatives (or empty)
+                legal = set(a['msg'] for a in alts) | {''}
+                for o in souts:
+                    ctx.count('message_origin_checks')
+                    if o.value['msg'] not in legal:
+                        ctx.violation('C08:%s:message_of_foreign_origin' % cls_name, 'message %r is none of %r' % (o.value['msg'], sorted(legal)),
+                                      {'grader': cls_name, 'config': base, 'alternatives': alts, 'input': inp})
             best = max(o.value['grade_decimal'] for o in souts)
             winners = [o.value for o in souts if o.value['grade_decimal'] == best]
             maxlen = max(len(w['msg']) for w in winners)
